@@ -443,6 +443,9 @@ def signature(kind, problem, v, obs, call="raise", mode="-"):
     if problem == "success-without-completed-verdict" and v.good and v.last_acct == "MISSING" and v.excuse \
             and v.excuse[-1] == "acct-MISSING" and swallowed:
         return f"{kind}-missing-accounting-error-swallowed-by-default-call-when-result-exists"
+    if problem == "success-without-completed-verdict" and v.good and swallowed and v.excuse \
+            and v.excuse[-1].startswith("submit-") and v.last_acct in R.REQUEUE:
+        return f"{kind}-resubmission-error-swallowed-by-default-call-when-result-exists"
     # classes that only become reachable once the SGE worker can submit at all (see proposed/C28-sge-*.md)
     if kind == "sge" and exc.get("type") == "KeyError" and exc.get("where") == "sge.py:_rerun_job_array":
         return "sge-resubmission-KeyError-without-result-file-table"
